@@ -504,18 +504,11 @@ func c09InboundCase(rec *vlib.Rec, r *rand.Rand, idx, m int, sc *c09Scenario, fr
 	case refmodel.C09Must:
 		if used {
 			key := "c09:inbound:" + rule + "-used:" + from.spec.Kind.String()
-			if rule == "own-cluster-id" {
-				// two input classes: the cluster id configured for the very session the route arrived on, or
-				// another cluster id this router reflects under (other client group / non-client session)
-				class := "other-local-cluster-id"
-				if from.spec.Kind == refmodel.C09RRClient {
-					for _, c := range in.ClusterList {
-						if c == from.spec.EffClusterID(rt) {
-							class = "session-cluster-id"
-						}
-					}
-				}
-				key = "c09:inbound:own-cluster-id-used:peer.handleUpdate:" + class
+			switch rule {
+			case "own-cluster-id":
+				key = "c09:inbound:own-cluster-id-used:peer.handleUpdate:session-cluster-id"
+			case "own-cluster-id-nonclient-session":
+				key = "c09:inbound:own-cluster-id-used:peer.handleUpdate:nonclient-session"
 			}
 			rec.Violation(key, fmt.Sprintf("a route with %s received from a %s peer is handed on to the decision process", rule, from.spec.Kind), wit())
 		}
